@@ -394,3 +394,64 @@ Theorem c17_src_basename : (forall s, g_basename s = leafname s) /\
   (forall f s i, rfind_pat f s = Some i -> (i + 1 <= length s)%nat) /\ g_basename_partial_ops = 1%nat.
 Proof. exact (conj g_basename_eq (conj rfind_pat_in_bounds eq_refl)). Qed.
 Print Assumptions c17_src_basename.
+
+(* ====================================================================================
+   Round 5 — what the builders answer (C17/Avail.v).  The property is a safety statement; these pin the functional
+   side a repair must keep: [ordinary_leaf name]: the leaf is not empty, not `..`, has no drive prefix. *)
+From RM Require Import C17.Avail.
+
+(* every module whose names have ordinary leaves is answered, with the symbol-server layout *)
+Theorem c17_src_available : forall m df id, m_debug_file m = Some df -> m_debug_identifier m = Some id -> ordinary_leaf df ->
+  g_lookup m KBreakpadSym =
+    Some (let rel := rel3 (leafname df) id (replace_or_add_extension (leafname df) s_pdb s_sym) in
+          {| cache_rel := rel; server_rel := rel |}) /\
+  g_lookup m KExtraDebugInfo =
+    Some (let rel := rel3 (leafname df) id (leafname df) in {| cache_rel := rel; server_rel := rel |}) /\
+  (forall cid, m_code_identifier m = Some cid -> ordinary_leaf (m_code_file m) ->
+     g_lookup m KBinary = Some {| cache_rel := rel3 (leafname df) id (leafname (m_code_file m));
+                                  server_rel := rel3 (leafname (m_code_file m)) cid (leafname (m_code_file m)) |} /\
+     g_code_info_breakpad_sym_lookup m =
+       Some (rel3 (leafname (m_code_file m)) (map upper cid) (replace_or_add_extension (leafname (m_code_file m)) s_dll s_sym))).
+Proof. exact src_available. Qed.
+Print Assumptions c17_src_available.
+
+(* and a lookup is declined when the debug file's leaf is degenerate *)
+Theorem c17_src_declines : forall m df, m_debug_file m = Some df -> ~ ordinary_leaf df ->
+  g_lookup m KBreakpadSym = None /\ g_lookup m KExtraDebugInfo = None /\ g_lookup m KBinary = None.
+Proof. exact src_declines. Qed.
+Print Assumptions c17_src_declines.
+
+(* ====================================================================================
+   Round 5 — std::path at the level of components (C17/PathModel.v: Path::components on unix, Path::parent = the path
+   without its final component; compared with the real std::path on every produced path by the correspondence run).
+   What the file-system sinks with a `.parent()` (create_dir_all) and the file creation receive. *)
+From RM Require Import C17.PathModel C17.PathProofs C17.IdModel C17.IdProofs.
+
+(* joining a safe relative path onto a non-empty root appends its components, none of them `..` *)
+Theorem c17_path_join_components : forall root rel, root <> [] -> safe_rel rel ->
+  posix_comps (posix_join root rel) = posix_comps root ++ posix_comps rel /\
+  comps_prefix (posix_comps root) (posix_comps (posix_join root rel)) = true /\
+  Forall (fun c => c <> dotdot) (posix_comps rel).
+Proof. exact joined_below_root. Qed.
+Print Assumptions c17_path_join_components.
+
+(* every module with a debug id VALUE, every kind, every root: cache.join(cache_rel) has the root's components in front, and
+   so has its parent directory (cache_rel always contains the identifier as a component, so the parent never climbs to
+   the parent of the root); no `..` is added *)
+Theorem c17_cache_paths_below_root : forall code_file debug_file d raw_code_id kind l root,
+  g_lookup (module_of_ids code_file debug_file (Some d) raw_code_id) kind = Some l -> root <> [] ->
+  (posix_comps (posix_join root (cache_rel l)) = posix_comps root ++ posix_comps (cache_rel l) /\
+   Forall (fun c => c <> dotdot) (posix_comps (cache_rel l))) /\
+  exists t, path_parent (posix_comps (posix_join root (cache_rel l))) = Some (posix_comps root ++ t) /\
+            comps_prefix (posix_comps root) (posix_comps root ++ t) = true /\
+            Forall (fun c => c <> dotdot) t.
+Proof. exact cache_paths_below_root. Qed.
+Print Assumptions c17_cache_paths_below_root.
+
+(* non-vacuity: "/c/" joined with "./0/." (the leaf `.` of extra_debuginfo): components c,0 — parent c *)
+Example c17_nonvacuous_path :
+  posix_comps (posix_join [47;99;47] [46;47;48;47;46]) = [[99]; [48]] /\
+  path_parent (posix_comps (posix_join [47;99;47] [46;47;48;47;46])) = Some [[99]] /\
+  path_parent (posix_comps [47]) = None /\
+  posix_comps (posix_join [47;99] [97;92;98;47;47;100]) = [[99]; [97;92;98]; [100]].
+Proof. repeat split; vm_compute; reflexivity. Qed.
